@@ -7,6 +7,7 @@ namespace Driver.C07
 
 def classify (s : Str) (flags : String) : Tok :=
   let has (c : Char) : Bool := flags.toList.contains c
+  if has 'T' then .kw s else     -- a linked `<` / `>` (template bracket) is outside the model's alphabet
   if has 'N' then
     if has 'V' then .var s else if has 'S' then .ty s else if has 'K' then .kw s else .fn s
   else if has 'L' then .num s
